@@ -43,6 +43,9 @@ EXPLANATION = (
   " (FIN-resume) the codec error handler of the STL reader, evaluated on the ranges the package's decoders report (including a two-byte range that ends past the buffer), returns the resume position error.end and does not fail;"
   ' (COND-supported) as in C07: under every option assignment the properties the cue writers read are kept by the whitelist built for that assignment, so no read yields an unexpected None;'
   ' (NUL-known) no local is dereferenced at a point where a dominating test has established that it is None and nothing has assigned it since (the test and the dereference would contradict each other);'
+  ' (DIV-parsed) no count that the STL reader parses from the file or takes from its caller (number of TTI blocks, maximum number of rows) is used as a divisor unless it has been made positive after it was set, so a count of 0 cannot raise ZeroDivisionError;'
+  ' (LOOP-break) no loop over the items of a collection is left by a branch that does nothing but `break` on a test about the item (end-of-input sentinels, flags set in the loop body and searches whose variable is read afterwards excepted): an item that is to be skipped does not end the processing of the items after it;'
+  " (TERM-refs) merge_chained_styles takes a style reference out of the element's list before it follows it, so a cycle of style references ends instead of recursing until RecursionError;"
 )
 RULE_TEXT = "per function / class / dereference / extraction site / raise statement"
 UNDECIDED = ["termination", "RecursionError (input-depth recursion exists in from_xml, dfs_iterator, _process_element)", "TypeError / AssertionError guarded by data-dependent invariants",
@@ -313,4 +316,6 @@ def run(ctx):
   common.check_numeric_fields(ctx, list(ctx.ix.modules))
   common.check_nullable_args(ctx, MODS)
   common.check_known_none(ctx, MODS)
+  common.check_parsed_divisors(ctx, ["ttconv.stl.reader", "ttconv.stl.datafile", "ttconv.stl.tf"], floor=3)
+  c04.check_reference_recursion(ctx)
   common.check_history_independence(ctx, MODS)
